@@ -47,4 +47,78 @@ PROPS = {
         "units": [U("pure", "TestC18", q(12000), q(40000, 16, timeout=3000))],
         "assumptions": [RAPID, "'the divider gives' is evaluated by calling the library's Fair/Rate on each subset with a fresh map; absent entry = 0"],
     },
+    "C03": {
+        "level": "exploration",
+        "hang_is_violation": True,
+        "units": [U("joinl", "TestC03", q(40000), q(300000, 16))],
+        "assumptions": [BUBBLE, RAPID, SAMPLED],
+    },
+    "C08": {
+        "level": "exploration",
+        "units": [U("joinl", "TestC08", q(40000), q(300000, 16))],
+        "assumptions": [BUBBLE, RAPID, SAMPLED, "every delivered slice is kept referenced to the end of the run, so overlapping address ranges in copy mode cannot come from garbage collection", "v1 'never touched again' is observed for 3x Timeout + 1us of virtual time after Stop returned while the producer keeps pushing"],
+    },
+    "C09": {
+        "level": "exploration",
+        "units": [U("joinl", "TestC09", q(40000), q(300000, 16))],
+        "assumptions": [BUBBLE, RAPID, SAMPLED, "lower bound anchored at the write-start of the last element of the previous slice (<= the moment the discipline reset its timer)"],
+    },
+    "C10": {
+        "level": "exploration",
+        "hang_is_violation": True,
+        "units": [U("joinl", "TestC10", q(40000), q(300000, 16))],
+        "assumptions": [BUBBLE, RAPID, SAMPLED, "scheduling latency is 0 inside the bubble: the algorithmic bound is verified, not the OS timer"],
+    },
+    "C11": {
+        "level": "exploration",
+        "units": [U("joinl", "TestC11", q(40000), q(300000, 16))],
+        "assumptions": [BUBBLE, RAPID, SAMPLED],
+    },
+    "C16": {
+        "level": "fault_enumeration",
+        "hang_is_violation": True,
+        "crash_is_violation": True,
+        "units": [U("joinl", "TestC16", q(30000), q(200000, 8)), U("prio", "TestC16", q(6000), q(50000, 8))],
+        "assumptions": [BUBBLE, RAPID, SAMPLED],
+    },
+    "C06": {
+        "level": "exploration",
+        "hang_is_violation": True,
+        "units": [U("prio", "TestC06", q(8000), q(60000, 16))],
+        "assumptions": [BUBBLE, RAPID, SAMPLED, "liveness is checked as bounded liveness on the virtual clock: a state counts as quiescent after two consecutive settle quanta without output", "known findings F4 and F5 (KNOWN_FINDINGS.txt) are recognised by their class and excluded from the search (counted under inconclusive_cases)"],
+    },
+    "C01": {
+        "level": "exploration",
+        "units": [U("prio", "TestC01", q(8000), q(60000, 16))],
+        "assumptions": [BUBBLE, RAPID, SAMPLED, "the harness is the only consumer: it counts an item as in processing from the completion of its receive until just before it issues the release, which never exceeds the discipline's own count"],
+    },
+    "C02": {
+        "level": "exploration",
+        "units": [U("prio", "TestC02", q(8000), q(60000, 16))],
+        "assumptions": [BUBBLE, RAPID, SAMPLED, "one producer per input channel, so the order of writing is a total order per channel"],
+    },
+    "C05": {
+        "level": "exploration",
+        "units": [U("prio", "TestC05", q(8000), q(60000, 16))],
+        "assumptions": [BUBBLE, RAPID, SAMPLED, "saturation = every input buffered with capacity = prefill >= H + releases + 1 (all data sits in the channel: no poll ever finds an input empty)", "share = the configured divider applied to (all priorities sorted high to low, H), as the property defines it"],
+    },
+    "C07": {
+        "level": "exploration",
+        "hang_is_violation": True,
+        "crash_is_violation": True,
+        "units": [U("prio", "TestC07", q(8000), q(60000, 16))],
+        "assumptions": [BUBBLE, RAPID, SAMPLED, "'promptly' = at the next quiescent point of the virtual clock"],
+    },
+    "C15": {
+        "level": "fault_enumeration",
+        "hang_is_violation": True,
+        "units": [U("prio", "TestC15", q(8000), q(60000, 16))],
+        "assumptions": [BUBBLE, RAPID, SAMPLED, "v1 validates only divisions made for a round (non-nil map); its strategic division with a nil map is outside the statement", "items sitting in the output channel when the fault is injected may still be received (read with len() from the discipline's goroutine inside the divider call)"],
+    },
+    "C17": {
+        "level": "exploration",
+        "hang_is_violation": True,
+        "units": [U("prio", "TestC17", q(6000), q(50000, 16))],
+        "assumptions": [BUBBLE, RAPID, SAMPLED, "the script never has two AddInput/RemoveInput calls for one priority outstanding at once (their order would be undefined)", "reads of a removed channel are bounded from above at the return of the call (the producer's counter may lag by one) and exact at the end"],
+    },
 }
